@@ -1345,6 +1345,28 @@ func c01JudgeBytes(c *mon.Ctx, in *c01Bytes) {
 				c.Count("bytes:NewTxFromBytes-rejected-inexact")
 			}
 		}
+		// NewTxFromString: the same rule for the hexadecimal entry point; and whatever
+		// follows a complete transaction in the string must at least be hex
+		{
+			var stx *bt.Tx
+			var serr error
+			if c.Try("NewTxFromString", func() { stx, serr = bt.NewTxFromString(hex.EncodeToString(rest)) }) {
+				c.Count("entry:NewTxFromString")
+				switch {
+				case serr == nil && rerr == nil && want.Consumed != len(rest):
+					c.Violationf("C01:NewTxFromString-accepts-trailing-bytes", "NewTxFromString accepts %d bytes of hex although the transaction ends after %d: %s", len(rest), want.Consumed, clip(rest))
+				case serr == nil:
+					judge("NewTxFromString", c01Parse{stx, int64(len(rest)), -1, nil})
+				case rerr == nil && want.Consumed == len(rest):
+					judge("NewTxFromString", c01Parse{stx, int64(len(rest)), -1, serr})
+				}
+			}
+			if rerr == nil {
+				if c.Try("NewTxFromString", func() { stx, serr = bt.NewTxFromString(hex.EncodeToString(rest[:want.Consumed]) + "zz") }) && serr == nil {
+					c.Violationf("C01:NewTxFromString-accepts-trailing-bytes", "NewTxFromString accepts a complete transaction followed by the non-hex characters \"zz\": %s", clip(rest[:want.Consumed]))
+				}
+			}
+		}
 		for _, s := range seqs {
 			if !s.live {
 				continue
